@@ -95,6 +95,25 @@ def typed_reference_wrapper(doc: dict) -> bool:
     return found[0]
 
 
+def derived_local_capture_names(man: dict) -> set:
+    """The python names of the sibling properties that the list template's loop variables replace (see derived_local_capture)."""
+    out = set()
+    for m in (man.get("models") or {}).values():
+        py = {p["python_name"]: p for p in m["props"]}
+        for n, p in py.items():
+            if p["kind"] == "ListProperty" or (p["kind"] == "UnionProperty" and any(i["kind"] == "ListProperty" for i in p.get("inners") or [])):
+                for suffix in ("_item", "_item_data"):
+                    if n + suffix in py:
+                        out.add(n + suffix)
+    return out
+
+
+def caseless_class_equals_module(man: dict) -> bool:
+    """C03's finding as a document-level trigger: some model's class name equals its module name (names in a caseless
+    script): from_dict's local named after the module makes the class name itself a local of the function."""
+    return any(cls == m.get("module") for cls, m in (man.get("models") or {}).items())
+
+
 def endpoint_local_capture(man: dict) -> bool:
     """The parameter flavour of C18's finding: an array parameter x and a sibling whose python name is x_item /
     x_item_data / json_x (locals the endpoint template derives from x)."""
